@@ -293,6 +293,10 @@ def catalogue(d, thorough):
         if mn >= 2:
             add('trail:below-min', 'A' * (mn - 1) + ' ')
         add('trail:only-blanks', ' ' * max(mn, 1))
+        if mn >= 2:
+            # blanks at both ends: the leading one is data (it counts towards the minimum), the trailing one is needless
+            add('trail:leading-and-trailing-at-min', ' ' + 'A' * (mn - 1) + ' ')
+        add('trail:leading-and-trailing-above-min', ' ' + 'A' * mn + ' ')
         if mx > mn + 1:
             add('trail:at-max', 'A' * (mx - 1) + ' ')
     elif numeric:
